@@ -111,7 +111,9 @@ def pipeline(tid, spec, gd, rng, events):
     top = np.sort(dense_all.real)[::-1]
     inside = float((top[1] + top[2]) / 2)            # a shift INSIDE the spectrum that is no eigenvalue
     settings = [(None, "LR"), (0.05 * float(np.abs(Q.diagonal()).max()), "LM")]
-    if abs(top[1] - top[2]) > 1e-4 * rho:
+    # the shift must be well away from the eigenvalues, and the set of the six eigenvalues nearest to it must be unambiguous
+    dist = np.sort(np.abs(dense_all.real - inside))
+    if abs(top[1] - top[2]) > 1e-4 * rho and len(dist) > 6 and (dist[6] - dist[5]) > 1e-3 * max(dist[6], 1e-300):
         settings.append((inside, "LM"))
     for sigma, which in settings:
         dec = dict(tid=tid, ev="Decompose", err="", lam=[], dense=[], imag=0, spread=0, k=6, sigma=0 if sigma is None else 1)
